@@ -95,7 +95,10 @@ PROPS = {
         # still names the object leaves the object unprotected
         + fns([F + "_untag_object", F + "_remove_pid_and_handle_cid_refs_deletion",
                F + "_mark_pid_refs_file_for_deletion", F + "_validate_and_check_cid_lock"],
-              r"post/(outcome|fs)"),
+              r"post/(outcome|fs)")
+        # which file a cid names: object path and reference-list path must be derived from the cid
+        # in the same way, or the "still referenced" guard looks at another cid's list
+        + fns(PATHS, r"post/(outcome|result)"),
         "lemmas": ["inv/store_object", "inv/tag_object", "inv/delete_object",
                    "inv/delete_if_invalid_object", "inv/store_metadata", "inv/delete_metadata",
                    "frame/delete_object", "frame/delete_if_invalid_object"],
@@ -153,7 +156,9 @@ PROPS = {
                     F + "_put_metadata", F + "_write_to_tmp_file_and_get_hex_digests",
                     F + "_rename_path_for_deletion"], r"post/(outcome|fs)"),
         "steps": True,
-        "scenario_select": [r"steps/.*/(S\d-.*|completes-normally)"],
+        "extra": [r"fs/temporary-files-only-in-tmp-areas"],
+        "scenario_select": [r"steps/.*/(S\d-.*|completes-normally)",
+                            r"fs/temporary-files-only-in-tmp-areas"],
     },
     "C10": {
         "fns": fns([F + "_update_refs_file", F + "_rename_path_for_deletion",
@@ -185,11 +190,13 @@ PROPS = {
     "C12": {
         "fns": fns(PUBLIC_META, r"post/locks|C-check-then-act/.*|loop-foreach/locks-restored"),
         "extra": [r"sync/acquired-identifier-is-free::class doc",
-                  r"sync/release-only-own", r"fs/directories-are-never-removed"],
+                  r"sync/release-only-own", r"fs/directories-are-never-removed",
+                  r"fs/temporary-files-only-in-tmp-areas"],
         "lemmas": [],
         "steps": True,
         "scenario_select": [r"steps/(store_metadata|delete_metadata).*/(W-.*|2P-.*)",
-                            r".*/C-check-then-act/.*", r"fs/directories-are-never-removed"],
+                            r".*/C-check-then-act/.*", r"fs/directories-are-never-removed",
+                            r"fs/temporary-files-only-in-tmp-areas"],
         "derived": "locks-metadata",
     },
     "C14": {
